@@ -131,14 +131,31 @@ func genConfig(r *rng) cfgCase {
 	case defect < 74:
 		c.expect, c.kind = "reject", "malformed-colour"
 		k := []string{"primary", "error", "highlight", "code_background"}[r.intn(4)]
-		bad := []string{"ffffff", "#fffff", "#fffffff", "#gggggg", "", "#12345z", " #ffffff", "#ffffff ", "red", "#+1+1+1", "#-1-1-1", "# 1 2 3", "#-00001", "#+fffff", "#-10000", "#-fffff", "#+00000", "#0x1234", "#1e3e5f"[0:6]+"_", "#00_0ff", "#0x0x0x", "rgb(1,2,3)", "#１２３４５６"}[r.intn(23)]
+		bad := []string{"ffffff", "#fffff", "#fffffff", "#gggggg", "", "#12345z", " #ffffff", "#ffffff ", "red", "#+1+1+1", "#-1-1-1", "# 1 2 3", "#-00001", "#+fffff", "#-10000", "#-fffff", "#+00000", "#0x1234", "#1e3e5f"[0:6]+"_", "#00_0ff", "#0x0x0x", "rgb(1,2,3)", "#１２３４５６",
+			// the form colours have inside the program (decimal components) is not a way to write them
+			"300;400;500", "1;2;3", "999;0;0", "0;0;0", "38;2;1;2;3", "255;255;256"}[r.intn(29)]
 		styleLines = append(styleLines, fmt.Sprintf("%s = %s", k, tomlStr(bad)))
 		haveStyle = true
 	case defect < 100:
 		c.expect, c.kind = "either", "out-of-range-or-wrong-type"
 		c.params["judged"] = 0
 		haveNet, haveMedia = true, true
-		switch r.intn(16) {
+		switch r.intn(20) {
+		case 16:
+			// keys are matched without regard to letter case by the decoder: the checks apply all the same
+			netLines = append(netLines, "Cache_Size = 0")
+			c.kind = "cache_size=0 (capitalised key)"
+		case 17:
+			mediaLines = []string{"Hook = []"}
+			c.kind = "hook=[] (capitalised key)"
+		case 18:
+			extraTop = fmt.Sprintf("[Network]\ncache_size = %d\n", -r.intn(5))
+			haveNet = false
+			c.kind = "cache_size<=0 (capitalised table)"
+		case 19:
+			extraTop = "[MEDIA]\nhook = []\n"
+			haveMedia = false
+			c.kind = "hook=[] (capitalised table)"
 		case 14:
 			netLines = append(netLines, fmt.Sprintf("preload_amount = %d", []int{1000000000000000, 9223372036854775807, 4294967296}[r.intn(3)]))
 			c.kind = "huge-preload"
